@@ -163,7 +163,8 @@ Builtin(name) ==
 (* env: bindings after a statement; pr: recorded types <<"let", x, type>>             *)
 Res(c, t, nv, bk, env, pr) == [c |-> c, t |-> t, nv |-> nv, bk |-> bk, env |-> env, pr |-> pr]
 Fail(c) == Res(c, TNull, FALSE, FALSE, <<>>, <<>>)
-Good(t, nv, bk, pr) == Res("ok", t, nv \/ t.k = "never", bk, <<>>, pr)
+Good(t, nv, bk, pr) == Res("ok", t, nv \/ t.k = "never", bk, <<>>, pr)      \* an expression: a diverging one counts for nv
+Plain(t, nv, bk, pr) == Res("ok", t, nv, bk, <<>>, pr)                       \* a block as part of a larger construct
 
 \* env: sequence of [n, t]; the last binding of a name wins (shadowing)
 Lookup(env, x) == LET hit == {j \in 1..Len(env) : env[j].n = x} IN
@@ -243,10 +244,10 @@ CheckArms(env, ctx, arms, ct, j, acc) ==
 CheckBlock(env, ctx, b, scoped) ==
     LET s == TLCEval(CheckStmts(env, ctx, b.ss, 1)) IN
     IF s.c # "ok" THEN s
-    ELSE IF b.e = NIL THEN Good(IF s.t.k = "never" THEN TNever ELSE TNull, s.nv, s.bk, s.pr)
+    ELSE IF b.e = NIL THEN Plain(IF s.t.k = "never" THEN TNever ELSE TNull, s.nv, s.bk, s.pr)
     ELSE LET v == TypeOf(s.env, ctx, b.e) IN
          IF v.c # "ok" THEN v
-         ELSE Good(IF s.t.k = "never" THEN TNever ELSE v.t, s.nv \/ v.nv, s.bk \/ v.bk, s.pr \o v.pr)
+         ELSE Plain(IF s.t.k = "never" THEN TNever ELSE v.t, s.nv \/ v.nv, s.bk \/ v.bk, s.pr \o v.pr)
 
 \* statements from j on; the result type is never if one of them diverges
 CheckStmts(env, ctx, ss, j) ==
@@ -396,7 +397,7 @@ TypeOfRaw(env, ctx, e) ==
             ELSE IF a.t.k = "obj" /\ e.t.k = "anyobj" THEN Good(e.t, a.nv, FALSE, a.pr)
             ELSE IF ~Compat(a.t, e.t, FALSE) \/ e.t.k = "fn" THEN Fail("BadCast")
             ELSE Good(e.t, a.nv, FALSE, a.pr)
-      [] e.k = "block" -> CheckBlock(env, ctx, e, FALSE)
+      [] e.k = "block" -> LET b == CheckBlock(env, ctx, e, FALSE) IN IF b.c # "ok" THEN b ELSE Good(b.t, b.nv, b.bk, b.pr)
       [] e.k = "if" ->
             LET c == TypeOf(env, ctx, e.c) IN
             IF c.c # "ok" THEN c
